@@ -152,7 +152,9 @@ FamUser2 == <<
     Bin("URoot", M1, Two), Bin("URoot", M2, Two), Bin("URoot", One, M1), Bin("URoot", One, M2),
     Bin("UPlain", One, Two), Bin("UPlain", One, Three), Bin("UPlain", One, M1), Bin("UPlain", One, M2),
     Bin("ULeg", One, Two), Bin("ULeg", One, Three), Bin("ULeg", OneB, Two),
-    Bin("ULeg", One, M1), Bin("ULeg", One, M2), Bin("ULeg", M1, Two), Bin("ULeg", M2, Two) >>
+    Bin("ULeg", One, M1), Bin("ULeg", One, M2), Bin("ULeg", M1, Two), Bin("ULeg", M2, Two),
+    \* a decorated user class with a hand-written __init__ (expr_dataclass(init=False))
+    Bin("UInit", One, Two), Bin("UInit", OneF, Two), Bin("UInit", One, Three), Bin("UInit", One, M1) >>
 
 U3(cls, a, b, c) == Node(cls, << a, b, c >>)
 FamUser3 == <<
